@@ -365,6 +365,7 @@ where
             got: opened_base_coeffs.len(),
         });
     }
+    check_opened_widths(dimensions, opened_base_coeffs)?;
 
     if let Some(salts) = salts
         && salts.len() != opened_base_coeffs.len()
@@ -482,6 +483,7 @@ where
             got: opened_extension_values.len(),
         });
     }
+    check_opened_widths(dimensions, opened_extension_values)?;
 
     if let Some(salts) = salts
         && salts.len() != opened_extension_values.len()
@@ -571,6 +573,24 @@ where
         path_bits,
         &selected_root,
     )
+}
+
+/// Row-width check of the native MMCS (`check_widths` in p3-merkle-tree): the leaf hash flattens
+/// all rows of one height into a single stream, so row boundaries are only authenticated by
+/// pinning each opened row to its matrix width.
+fn check_opened_widths(
+    dimensions: &[Dimensions],
+    opened: &[Vec<Target>],
+) -> Result<(), CircuitBuilderError> {
+    for (dims, row) in dimensions.iter().zip(opened) {
+        if row.len() != dims.width {
+            return Err(CircuitBuilderError::InvalidDimension {
+                expected: dims.width,
+                actual: row.len(),
+            });
+        }
+    }
+    Ok(())
 }
 
 /// Select one cap entry from a Merkle cap using a binary tree multiplexer.
@@ -1301,6 +1321,7 @@ where
             got: opened_base_coeffs.len(),
         });
     }
+    check_opened_widths(dimensions, opened_base_coeffs)?;
 
     let (selected_root, schedule, leaf_rows) = arity4_prepare::<EF>(
         circuit,
@@ -1372,6 +1393,7 @@ where
             got: opened_extension_values.len(),
         });
     }
+    check_opened_widths(dimensions, opened_extension_values)?;
 
     let (selected_root, schedule, leaf_rows) = arity4_prepare::<EF>(
         circuit,
